@@ -19,7 +19,7 @@ SAN_ENV = {
     "ASAN_OPTIONS": "detect_leaks=0:abort_on_error=0:exitcode=99:allocator_may_return_null=1:"
                     "detect_stack_use_after_return=0:handle_abort=0",
     "UBSAN_OPTIONS": "print_stacktrace=0:halt_on_error=1",
-    "TSAN_OPTIONS": "halt_on_error=0:exitcode=66:report_signal_unsafe=0:history_size=4",
+    "TSAN_OPTIONS": "halt_on_error=1:exitcode=66:report_signal_unsafe=0:history_size=4",
     "MSAN_OPTIONS": "exitcode=98:halt_on_error=1",
 }
 
